@@ -93,6 +93,14 @@ def cases(tier, seed):
             d.update(geos[nd][fi])
             d.update({"fields": flds, "layout": [None, scope.layouts(len(m["levels"][1]), 'idrev')[-1]], "payload": "coded", "time": times[1], "seed": seed})
             out.append({"desc": d, "full": False, "maxlist": 2, "boxes_only": False, "devlevel": None, "w": 12, "names_case": True})
+    # level directories named otherwise than Level_k (AMReX's levelPrefix)
+    for nd in (2, 3):
+        m = scope.named_meshes(nd)[2]
+        d = dict(m)
+        d.update(geos[nd][1])
+        d.update({"fields": ["temp", "density"], "layout": [scope.layouts(len(b), 'idrev')[-1] for b in m["levels"]], "payload": "coded", "time": times[3],
+                  "seed": seed, "levelprefix": "Lev_"})
+        out.append({"desc": d, "full": False, "maxlist": 2, "boxes_only": False, "devlevel": None, "w": 12, "levelprefix": True})
     # 27 + 20 boxes scattered over five / three files (more boxes than the small-array shortcuts of sorting routines)
     m = scope.many_box_mesh()
     d = dict(m)
@@ -176,6 +184,8 @@ def run_case(case, workdir):
                 fstar = [f for f in fsels if f[0] in (["name", names[0]], ["int", len(names) - 1],
                                                      ["slice", None, None, None])]
                 pairs = [(f, b) for f in fsels for b in bstar] + [(f, b) for f in fstar for b in bsels]
+            if lvcls == "C" and lvtag != nlev:
+                pairs = [p_ for p_ in pairs if p_[0][1] == "A" and p_[1][1] == "A"][:4]      # a key that names no level: the box selector is irrelevant
             for (ftag, fcls, fidx), (btag, bcls, bsel) in pairs:
                 cls = S.combine_class(fcls, lvcls, bcls)
                 sub = {"field": ftag, "level": lvtag, "box": btag, "class": cls}
